@@ -124,6 +124,57 @@ func init() {
 			return ex.constStr(p.Obj.Name)
 		},
 		"sort.Slice":        intrSortSlice,
+		"sort.SliceStable":  intrSortSlice, // (the insertion sort of the model is stable)
+		"sort.Strings": func(ex *Exec, fn *ssa.Function, a []Value, fr *Frame) Value {
+			s := a[0].(*SliceV)
+			n := ex.concInt(s.Len, "sort.Strings length")
+			if n < 2 {
+				return nil
+			}
+			off := ex.concInt(s.Off, "sort.Strings offset")
+			arr := s.Arr.Val.(ArrayV)
+			gs := make([]string, n)
+			for i := 0; i < n; i++ {
+				g, ok := ex.goString(arr[off+i].(*StringV))
+				if !ok {
+					panic(unsupported("sort.Strings of symbolic strings"))
+				}
+				gs[i] = g
+			}
+			sort.Strings(gs)
+			for i := 0; i < n; i++ {
+				arr[off+i] = ex.constStr(gs[i])
+			}
+			return nil
+		},
+		"strings.SplitN": func(ex *Exec, fn *ssa.Function, a []Value, fr *Frame) Value {
+			x, ok1 := ex.goString(a[0].(*StringV))
+			y, ok2 := ex.goString(a[1].(*StringV))
+			n := a[2].(*Term)
+			if !ok1 || !ok2 || !n.IsConst() {
+				panic(unsupported("strings.SplitN on symbolic input"))
+			}
+			var out []*StringV
+			for _, p := range strings.SplitN(x, y, int(n.SInt())) {
+				out = append(out, ex.constStr(p))
+			}
+			return ex.makeStringSlice(out)
+		},
+		"strings.Fields": func(ex *Exec, fn *ssa.Function, a []Value, fr *Frame) Value {
+			x, ok := ex.goString(a[0].(*StringV))
+			if !ok {
+				panic(unsupported("strings.Fields on symbolic input"))
+			}
+			var out []*StringV
+			for _, p := range strings.Fields(x) {
+				out = append(out, ex.constStr(p))
+			}
+			return ex.makeStringSlice(out)
+		},
+		"errors.Is": func(ex *Exec, fn *ssa.Function, a []Value, fr *Frame) Value {
+			// identity only: the error values the harnesses see are not wrapped
+			return ex.valEq(a[0], a[1])
+		},
 		"bytes.HasPrefix": func(ex *Exec, fn *ssa.Function, a []Value, fr *Frame) Value {
 			return ex.matchAt(ex.sliceTerms(a[0].(*SliceV)), 0, ex.sliceTerms(a[1].(*SliceV)))
 		},
